@@ -236,7 +236,7 @@ func c07(c *Ctx) {
 			// the value marshalled is the marked message itself, not a partial copy
 			for _, mc := range astx.Calls(deferLit.Body, false) {
 				fn := astx.Callee(info, mc)
-				if fn == nil || fn.Name() != "Marshal" || len(mc.Args) != 1 {
+				if fn == nil || fname(fn) != "Marshal" || len(mc.Args) != 1 {
 					continue
 				}
 				arg := ast.Unparen(mc.Args[0])
